@@ -16,6 +16,9 @@ def proj(kind, o):
         return o
     if kind == "jsondec":
         o = o.split(" msg=")[0]
+        # the error class is compared; the path inside the message names Go members ("embedded
+        # 'Tail' field" vs "additional property"), which the inline form cannot share
+        o = re.sub(r"dec=err\((\w+),[^)]*\)", r"dec=err(\1)", o)
         m = re.match(r"dec=ok dump=.* reenc=(\w*)", o)
         return "ok " + m.group(1) if m else o
     if kind == "respinfo":
@@ -34,6 +37,7 @@ def check(ctx):
     n = agree = 0
     kinds, samples = {}, []
     gout = {}
+    diags = {}
     meta = {}
     distinct = set()
     if vh:
@@ -50,6 +54,8 @@ def check(ctx):
             o1, o2 = g[2].split("/")
             if (o1 == "ok") != (o2 == "ok") or bool(b1) != bool(b2):
                 n += 1
+                dk = re.sub(r"\w+/x\d+_\d+[ri]/", "", (b1 or b2))[:120]
+                diags[dk] = diags.get(dk, 0) + 1
                 if "redeclared" in (b1 + b2) and "KF-C01-nameCollision" in listed:
                     kf_hits["KF-C01-nameCollision"] = kf_hits.get("KF-C01-nameCollision", 0) + 1
                     continue
@@ -89,7 +95,7 @@ def check(ctx):
     cov.update({
         "trusted_base": TRUSTED, "evaluations": n, "distinct_nontrivial": len(distinct),
         "rule": "base specs from the parameter corpus (schema $ref and component-parameter $ref), the JSON corpus (component schemas referencing each other, allOf / oneOf members by reference) and the response corpus (shared responses, alias chains); each generated as written and with every reference inlined; both packages driven with identical raw requests (lexeme-class query/header values x cardinalities), identical JSON documents incl. single-fault mutants, identical status codes; non-trivial = not a plain 404; distinct by (pair, projected observation)",
-        "samples": samples, "programs": 2 * sum(v for k, v in gout.items() if k == "ok/ok"), "pair_outcomes": gout, "agree": agree, "case_kinds": kinds,
+        "samples": samples, "programs": 2 * sum(v for k, v in gout.items() if k == "ok/ok"), "pair_outcomes": gout, "one_sided_failures": diags, "agree": agree, "case_kinds": kinds,
         "disagreements_checked": n - agree, "harness_stats": meta.get("stats", {}),
         "explanation": "a relation between two generated programs: observations are projected to wire level (dispatch / parse result or error class+name, re-encoded canonical JSON, written status / content type / header names / body kind, client arm) and must be equal",
     })
